@@ -48,7 +48,14 @@ pub fn run(s: &mut Session, ctx: &Ctx) {
                     }
                     Some(c) => c,
                 };
-                s.op(op, ok(c_out(&c)), true);
+                if rng_kind == 6 {
+                    // landmark draws sit exactly on rounding ties of the 8-bit result (0.5 -> 127.5), where a last-bit
+                    // difference of an equivalent formula flips a byte: this stream is judged by the direct oracles
+                    // of the ranges only, not by equality with the model
+                    s.count_case(&op, true);
+                } else {
+                    s.op(op, ok(c_out(&c)), true);
+                }
                 let h = c.to_hsla();
                 let q = c.to_rgba();
                 s.check(q.alpha == 1.0, "opaque", &format!("strategies::{}", kind), inp, || format!("alpha {:?}", q.alpha));
